@@ -72,6 +72,9 @@ long mi_option_get_clamp(mi_option_t option, long min, long max)
 __CPROVER_requires(1) __CPROVER_assigns()
 __CPROVER_ensures((option >= 0 && option < 64) ==> __CPROVER_return_value == (g_opt[option] < min ? min : (g_opt[option] > max ? max : g_opt[option])));
 
+long _mi_option_get_fast(mi_option_t option)
+__CPROVER_requires(1) __CPROVER_assigns()
+__CPROVER_ensures((option >= 0 && option < 64) ==> __CPROVER_return_value == g_opt[option]);
 bool g_preloading;
 bool _mi_preloading(void)
 __CPROVER_requires(1) __CPROVER_assigns() __CPROVER_ensures(__CPROVER_return_value == g_preloading);
